@@ -121,10 +121,16 @@ class Machine:
         s.fl['CF'] = int(a < b) if is_c(a) and is_c(b) else b1(z3.ULT(bv(a, w), bv(b, w)))
     def undef_flags(s): s.fl = dict(ZF=None, CF=None, SF=None, OF=None)
     def cond(s, cc):
-        need = {4: 'ZF', 5: 'ZF', 2: 'CF', 3: 'CF', 8: 'SF', 9: 'SF'}[cc]
-        f = s.fl[need]
-        if f is None: raise Fault('conditional on undefined flag %s' % need)
-        neg = cc & 1
+        base = cc & 14; neg = cc & 1
+        if base in (6,):      # BE / A : CF | ZF
+            c, z = s.fl['CF'], s.fl['ZF']
+            if c is None or z is None: raise Fault('conditional on undefined flags CF/ZF')
+            f = (c | z) if is_c(c) and is_c(z) else (bv(c, 1) | bv(z, 1))
+        else:
+            need = {4: 'ZF', 2: 'CF', 8: 'SF', 0: 'OF'}.get(base)
+            if need is None: raise Undecodable('condition code %d' % cc)
+            f = s.fl[need]
+            if f is None: raise Fault('conditional on undefined flag %s' % need)
         if is_c(f): return f ^ neg
         return f ^ 1 if neg else f     # 1-bit term
     def decide(s, c):
